@@ -12,7 +12,56 @@ import (
 
 const nS = 3 // schemes k1 k2 k3
 
-var schemeName = [nS]string{"k1", "k2", "k3"}
+var schemeName = [nS]string{"k1", "k2", "k3"} // canonical ids (case files, headers of the scripted authenticators)
+
+// naming: the actual names the description gives the three schemes and their scopes. The
+// reference never compares names: it works on indices, so every naming is judged exactly
+// like the plain one (names are distinct as byte strings, which is what distinguishes two
+// security definitions and two scopes).
+const (
+	namePlain       = iota // k1 k2 k3; scopes <k>.<pos> and the common r
+	nameCaseOnly           // names and scopes that differ only in ASCII case
+	namePrefixes           // names and scopes that are prefixes of each other
+	namePunctuation        // . - [ ] in names and scopes
+	nameSyntax             // space, percent-escape look-alike, / : # ? & = + * in names and scopes
+	nameUnicodeFold        // k vs KELVIN SIGN (equal under Unicode case folding), non-ASCII case pair, rune beyond the BMP
+	nameLongSpace          // a 300-byte name, names that differ in leading/trailing space; 300-byte scopes
+	nNaming
+)
+
+var namingName = [nNaming]string{"plain", "case-only", "prefixes", "punctuation", "syntax", "unicode-fold", "long-and-space"}
+
+var long300 = strings.Repeat("n", 300)
+
+var schemeNames = [nNaming][nS]string{
+	{"k1", "k2", "k3"},
+	{"ApiKey", "apikey", "APIKEY"},
+	{"k", "k1", "k12"},
+	{"a.b", "a-b", "a[0]"},
+	{"a b", "%41", "a/b:c#?&=+*"},
+	{"k", "\u212a", "\u00c9"},
+	{long300, " n", "n "},
+}
+
+// own scope stem of scheme s and the "common" scope of k2 / k3 (k1 has none)
+var scopeStem = [nNaming][nS]string{
+	{"k1", "k2", "k3"},
+	{"scope", "Scope", "SCOPE"},
+	{"a", "a.b", "a.b.c"},
+	{"a.b", "a-b", "a[0]"},
+	{"%41", "a+b", "a&b=c,d;e"},
+	{"\u00e9", "\u00c9", "\U0001d11e"},
+	{long300 + "1", long300 + "2", long300 + "3"},
+}
+var commonScope = [nNaming][nS]string{
+	{"", "r", "r"},
+	{"", "read", "Read"}, // not common any more: both must survive in the union
+	{"", "a", "a"},
+	{"", "r-w", "r-w"},
+	{"", "*", "*"},
+	{"", "k", "\u212a"},
+	{"", "r", "r"},
+}
 
 // per-scheme outcome of the request (abstract; rendered into credentials by the harness)
 const (
@@ -145,6 +194,7 @@ type kase struct {
 	out               [nS]uint8
 	az, rest          uint8
 	wiring            uint8
+	naming            uint8
 }
 
 // Case is the replayable JSON form.
@@ -159,6 +209,8 @@ type Case struct {
 	Authorizer string            `json:"authorizer"`
 	Rest       string            `json:"rest,omitempty"`
 	Wiring     string            `json:"wiring,omitempty"` // empty = the common path
+	Naming     string            `json:"naming,omitempty"` // empty = plain; the case file speaks of k1 k2 k3, the description uses Names
+	Names      []string          `json:"names,omitempty"`  // informational: the actual scheme names of that naming
 }
 
 func (k kase) toCase() Case {
@@ -181,6 +233,10 @@ func (k kase) toCase() Case {
 	}
 	if k.level == lvlHandler {
 		c.Rest = restName[k.rest]
+	}
+	if k.naming != namePlain {
+		c.Naming = namingName[k.naming]
+		c.Names = schemeNames[k.naming][:]
 	}
 	if k.wiring != wEarlyAPIHandler {
 		c.Wiring = wiringName[k.wiring]
@@ -211,6 +267,11 @@ func (c Case) toKase() (kase, error) {
 	}
 	if k.az, err = idx(azName[:], c.Authorizer, "authorizer"); err != nil {
 		return k, err
+	}
+	if c.Naming != "" {
+		if k.naming, err = idx(namingName[:], c.Naming, "naming"); err != nil {
+			return k, err
+		}
 	}
 	if c.Wiring != "" {
 		if k.wiring, err = idx(wiringName[:], c.Wiring, "wiring"); err != nil {
@@ -273,18 +334,25 @@ func (c Case) toKase() (kase, error) {
 
 // ---- scopes: scheme s at list position i requires these ----
 
-func scopesOf(pos, s int) []string {
-	own := fmt.Sprintf("%s.%d", schemeName[s], pos)
-	if s == 0 {
-		return []string{own}
-	}
-	return []string{own, "r"}
+func ownScope(naming uint8, pos, s int) string {
+	return fmt.Sprintf("%s.%d", scopeStem[naming][s], pos)
 }
 
-// granted to a scope-limited (oOKS) credential of scheme s: the common scope and the
+func scopesOf(naming uint8, pos, s int) []string {
+	own := ownScope(naming, pos, s)
+	if c := commonScope[naming][s]; c != "" {
+		return []string{own, c}
+	}
+	return []string{own}
+}
+
+// granted to a scope-limited (oOKS) credential of scheme s: its common scope and the
 // scheme's own scope of list position 0 - so the credential is accepted exactly when the
 // scheme is asked for the scopes that the alternative at position 0 declares for it
-func granted(s int, scope string) bool { return scope == "r" || scope == schemeName[s]+".0" }
+// (byte-exact comparison: scopes are opaque strings)
+func granted(naming uint8, s int, scope string) bool {
+	return (commonScope[naming][s] != "" && scope == commonScope[naming][s]) || scope == ownScope(naming, 0, s)
+}
 
 func canonScopes(ss []string) string {
 	set := map[string]bool{}
@@ -299,19 +367,21 @@ func canonScopes(ss []string) string {
 	return strings.Join(out, " ")
 }
 
-// altScopes[pos][mask] = canonical union of the scopes of the schemes in mask at list position pos
-var altScopes [3][8]string
+// altScopes[naming][pos][mask] = canonical union of the scopes of the schemes in mask at list position pos
+var altScopes [nNaming][3][8]string
 
 func init() {
-	for pos := 0; pos < 3; pos++ {
-		for m := 0; m < 8; m++ {
-			var all []string
-			for s := 0; s < nS; s++ {
-				if m&(1<<uint(s)) != 0 {
-					all = append(all, scopesOf(pos, s)...)
+	for nm := uint8(0); nm < nNaming; nm++ {
+		for pos := 0; pos < 3; pos++ {
+			for m := 0; m < 8; m++ {
+				var all []string
+				for s := 0; s < nS; s++ {
+					if m&(1<<uint(s)) != 0 {
+						all = append(all, scopesOf(nm, pos, s)...)
+					}
 				}
+				altScopes[nm][pos][m] = canonScopes(all)
 			}
-			altScopes[pos][m] = canonScopes(all)
 		}
 	}
 }
@@ -562,7 +632,7 @@ func (a allowed) describe(k kase) string {
 	for i := 0; i < 3; i++ {
 		for p := 0; p < 4; p++ {
 			if a.run&(1<<uint(i*4+p)) != 0 {
-				parts = append(parts, fmt.Sprintf("RUN principal=%s scopes=[%s]", princName(p), altScopes[i][k.alts[i].mask()]))
+				parts = append(parts, fmt.Sprintf("RUN principal=%s scopes=[%s]", princName(p), altScopes[k.naming][i][k.alts[i].mask()]))
 			}
 		}
 	}
@@ -586,7 +656,7 @@ func runAllowed(k kase, al allowed, o obs) bool {
 		return false
 	}
 	for i := 0; i < int(k.nalts); i++ {
-		if al.run&(1<<uint(i*4+o.princ)) != 0 && o.scopes == altScopes[i][k.alts[i].mask()] {
+		if al.run&(1<<uint(i*4+o.princ)) != 0 && o.scopes == altScopes[k.naming][i][k.alts[i].mask()] {
 			return true
 		}
 	}
@@ -645,7 +715,7 @@ func defectPredict(k kase, allowNil, allowUnreg bool) (feature string, pred obs,
 		if deny, tag := azDenies(k.az, last); deny {
 			return feature, obs{kind: obsRefused, tag: tag}, true
 		}
-		return feature, obs{kind: obsRun, princ: last, scopes: altScopes[i][a.mask()]}, true
+		return feature, obs{kind: obsRun, princ: last, scopes: altScopes[k.naming][i][a.mask()]}, true
 	}
 	return "", obs{}, false
 }
